@@ -293,7 +293,7 @@ def run(repo, rep):
                     if not any(e.kind == 'call:_process_incoming' for e in tr[:i]):
                         problems.append('socket read at line %d while buffered bytes were not tried first' % ev.line)
     if n_app == 0:
-        raise AnalysisError('no buffer append found on any path of _check_network')
+        problems.append('no path appends the received bytes to the buffer')
     rep.check(not problems, 'C03.B3', 'dulprovider:DULServiceProvider._check_network:drain-order',
               pm.method('_check_network').loc(), 'every append is followed by a framing attempt (%d paths with append)' % n_app,
               '; '.join(sorted(set(problems))))
